@@ -391,6 +391,8 @@ def check(src, rep, tier):
     common.SoftErrors(rep, lambda: texts_hold, 'the interpreted texts (C15.R7), which hold').guard('C15.R5', r5_normal_form, src)
     if rep.min_instances.get('C15.R5') == 0:
         rep.min_instances['C15.R5'] = n_r5
+    from . import common as _common_flags
+    rep.guard('C15.R3', _common_flags.check_re_positional_flags, src, 'C15.R3', 'changelog', 'a line with more separators than that is read differently')
 
 
 def r7_end_to_end(rep, src, tier):
